@@ -142,6 +142,19 @@ func (w *World) addContractFile(cf *ContractFile) {
 			name = qualify(cf.Pkg, name)
 		}
 		c.Name = name
+		if old := w.Contracts[name]; old != nil {
+			// a verified contract and a trusted declaration of the same function (made by a client
+			// package) may both exist: the verified one wins and inherits a frame if it has none
+			keep, other := old, c
+			if old.Kind != "func" && c.Kind == "func" {
+				keep, other = c, old
+			}
+			if !keep.HasFrame && other.HasFrame {
+				keep.HasFrame, keep.Frame = true, other.Frame
+			}
+			w.Contracts[name] = keep
+			continue
+		}
 		w.Contracts[name] = c
 	}
 	for _, g := range cf.Ghosts {
